@@ -33,7 +33,7 @@ CLAIMS = {
   ref="§3 C02"),
  "C06": dict(
   text="Seeded exploration in World X, fault-free configuration: three parties - writer (pydsdl.serialize), reader (pydsdl.deserialize) and an independent reference peer (Specification codec over the abstract type language). For every generated type 12-40 seeded values incl. out-of-range numbers, NaN / inf / subnormals, empty / full arrays, multi-byte UTF-8, omitted fields, relaxed forms, with and without delimiter header: bytes identical to the reference peer's, round trip equals the reference's canonicalisation, length in bit_length_set. This is the baseline for C07 / C14's relaxed oracles.",
-  note="Trusted: struct for IEEE-754 rounding. Not generated: infinite input for saturated floats, float inputs for integer fields, ambiguous bare-dict relaxed forms.",
+  note="Trusted: struct for IEEE-754 rounding. Not generated: infinite input for saturated floats, non-integral float inputs for integer fields, ambiguous bare-dict relaxed forms. Caller-owned value objects must be left unchanged by serialize().",
   technique="deterministic simulation: writer / reader / reference-peer differential over seeded types and values (fault-free baseline)",
   ref="§3 C06"),
  "C07": dict(
@@ -63,7 +63,7 @@ CLAIMS = {
   ref="§3 C17"),
  "C13": dict(
   text="Seeded exploration in World W with storage corruption of one definition inside the closure (torn writes at line / token / character boundaries, lost / duplicated / spliced blocks, token-level edits, character noise incl. control and non-ASCII characters, ~150 arithmetic and lexical corner fragments of bounded magnitude and nesting, service types used as values) or one stray directory entry (39 odd file and directory names incl. twins): the read returns or raises InvalidDefinitionError with a path inside the workspace; InternalError, foreign exceptions and hangs (watchdog) are violations.",
-  note="Bounded magnitude and nesting (pre-filter); not injected: unreadable files, non-UTF-8 bytes, directories named like definition files.",
+  note="Bounded magnitude and nesting (pre-filter). Path attribution is demanded when the corrupted file is rejected on its own and the corruption introduced no new reference. Not injected: unreadable files, non-UTF-8 bytes, symbolic links that resolve outside the root.",
   technique="deterministic simulation: seeded storage-corruption faults on a simulated workspace, exception-class oracle, watchdog for termination",
   ref="§3 C13"),
  "C19": dict(
@@ -78,7 +78,7 @@ CLAIMS = {
   ref="§3 C09"),
  "C15": dict(
   text="Seeded exploration in World W: definition files at depths 0-4 with mixed-case names, boundary versions and port-IDs are read under every designation of targets and roots (absolute, bare name, '..', symlink alias, namespace-relative target with absolute / cwd-relative / no root, decoy directories, list order, varying cwd); identity and source paths must equal what the model decodes from the path; supported designations must succeed, documented-open ones are checked for soundness only; malformed file / directory names in a scanned root must be rejected.",
-  note="Not generated: numeric components only Python's int() accepts; bare root names with a same-named ancestor directory (ambiguous).",
+  note="Not generated: numeric components only Python's int() accepts; bare root names with a relative target when a same-named directory exists under cwd (ambiguous).",
   technique="deterministic simulation: seeded cwd / designation / alias configurations of a simulated workspace, reference-model oracle",
   ref="§3 C15"),
  "C05": dict(
@@ -127,7 +127,7 @@ def main():
         "engines": [{"name": "dsim", "path": "/verif/dsim", "serves_properties": sorted(CLAIMS), "kind_free_text": "deterministic simulator: seeded scenario generator, per-hash-seed worker processes, fs/clock/channel seams, reference models, structural shrinker, replay"}],
         "checks": checks,
         "not_applicable": na,
-        "notes": "Genuine defects repaired in /repo are listed in known_findings.json (fixed entries suppress nothing).",
+        "notes": "Genuine defects repaired in /repo are listed in known_findings.json (fixed entries suppress nothing). History / usage / fault dimensions added after the independent seeded-change rounds (iterable and buffer kinds, handler kinds, mtime policy, pre-reads, in-place revisions, hostile clients, result freshness) are listed in DESIGN.md section 9.2; an exception raised inside the code under test while a check queries it is reported as a violation of the check's crash oracle.",
     }
     json.dump(m, open(os.path.join(HERE, "MANIFEST.json"), "w"), indent=1)
     print("claimed", len(checks), "not_applicable", len(na))
